@@ -40,7 +40,8 @@ def gen_cases(rng, tier, info):
         defs.append([mk("K", "i16", pk=True), mk("S", ("str", w), null=True)])
     for cat in CATS:
         defs.append([mk("K", ("str", 20), pk=True, cat=cat), mk("V", ("str", 0), null=True, cat=cat, loc=True)])
-    for en in (["a"], ["a", "b"], ["a;b", "c"], ["", "c"], ["x" * 100, "y" * 100, "z" * 60], ["é", "日本"]):
+    for en in (["a"], ["a", "b"], ["a;b", "c"], ["", "c"], ["x" * 100, "y" * 100, "z" * 60], ["é", "日本"],
+               [" lead", "trail ", " ", "in side"], ["\ta", "b\n"], ["A", "a"], ["1", "01", "+1"]):
         defs.append([mk("K", "i16", pk=True), mk("E", ("str", 0), null=True, enum=en)])
     for r in ((0, 0), (-5, 5), (5, -5), (-2**31 + 1, 2**31 - 1), (-2**31, 0), (0, 2**31 - 1), (-32768, 32767)):
         defs.append([mk("K", "i32", pk=True, rng=r), mk("R", "i16", null=True, rng=r)])
